@@ -77,6 +77,7 @@ TITLE_SHAPES = [
     ("camel", ("root thing", "alpha_beta gamma", "delta-Epsilon")),
     ("collides-with-autotitle", ("Root", "p", "q")),
     ("all-same", ("Same", "Same", "Same")),
+    ("reserved-duplicates", ("Object", "List", "List")),
 ]
 
 
